@@ -28,7 +28,7 @@ type vfUniverse struct {
 	baseper int64
 }
 
-func vfSeedBytes(s string) []byte  { return []byte("seed-" + s + "-0123456789abcdef0123456789") }
+func vfSeedBytes(s string) []byte { return []byte("seed-" + s + "-0123456789abcdef0123456789") }
 func vfTopicName(t string) string { return "/orbitdb/verif/" + t }
 
 func (u *vfUniverse) add(topic, seed string, per int64) (string, bool) {
@@ -53,14 +53,14 @@ func (u *vfUniverse) decode(val string) map[string]any {
 }
 
 type vfRdvCfg struct {
-	I, U           int64 // ticks per period, seconds per tick
-	offS, offNs    int64
-	base           int64 // unix seconds of tick 0 (multiple of the interval)
-	periods        []int // relative periods of the universe
-	topics, seeds  []string
-	realtime       bool
-	static         bool
-	locIdx         int
+	I, U          int64 // ticks per period, seconds per tick
+	offS, offNs   int64
+	base          int64 // unix seconds of tick 0 (multiple of the interval)
+	periods       []int // relative periods of the universe
+	topics, seeds []string
+	realtime      bool
+	static        bool
+	locIdx        int
 }
 
 func vfRdvParseCfg(sc vfScript) vfRdvCfg {
